@@ -174,8 +174,12 @@ func (s *sim) run() *core.Violation {
 		if len(s.regs) == 0 {
 			wRev = 0
 		}
+		wConc := 0
+		if layer2() && len(s.regs) >= 2 {
+			wConc = 14
+		}
 		var v *core.Violation
-		switch r.Weighted([]int{wConn, wReg, wRev, wJump}, "op") {
+		switch r.Weighted([]int{wConn, wReg, wRev, wJump, wConc}, "op") {
 		case 0:
 			v = s.opConnect(skip)
 		case 1:
@@ -184,6 +188,8 @@ func (s *sim) run() *core.Violation {
 			s.opRevoke(skip)
 		case 3:
 			s.opJump(skip)
+		case 4:
+			v = s.opConcurrent(skip)
 		}
 		if v != nil {
 			return v
@@ -218,7 +224,7 @@ func (s *sim) opRegister(skip bool) {
 	r := s.r
 	owner := s.actors[r.Choose(len(s.actors), "reg.owner")]
 	serial := serialPool[r.Choose(len(serialPool), "reg.serial")]
-	win := windows[r.Weighted([]int{8, 4, 3, 2, 2, 1, 2}, "reg.window")]
+	win := windows[r.Weighted([]int{8, 4, 3, 2, 2, 1, 2, 2, 2, 2, 2}, "reg.window")]
 	eku := r.Weighted([]int{10, 3, 3, 1, 2}, "reg.eku")
 	alg := r.Weighted([]int{5, 1}, "reg.alg")
 	if skip {
